@@ -5,6 +5,7 @@ CONSTANTS Powers <- PowersEdge
           TableSets = {}
           Pairs = TRUE
           AbsenceAccepted = FALSE
+          RepeatCounts = FALSE
           EmitOn = TRUE
 VIEW View
 INVARIANT TypeOK
